@@ -408,6 +408,8 @@ def decorate_scenario(rng, sc, opts):
     if rng.random() < 0.5:
         hl.append("##phasing=none")
     hl.append("##source=synth")
+    if rng.random() < 0.25:
+        hl.append('##commandline="(whatshap 1.0) phase -o earlier.vcf x.vcf y.bam"')
     if not no_contigs:
         hl += [f"##contig=<ID={c},length={len(sc.ref[c])}>" for c in sc.chroms]
     hl += ['##FILTER=<ID=q10,Description="Quality below 10">', vcfgen.INFO_DEFS["DP"], vcfgen.INFO_DEFS["FL"],
@@ -481,6 +483,19 @@ def decorate_scenario(rng, sc, opts):
                 alt2 = v.ref + "TT" if not v.alt.startswith(v.ref + "TT") else v.ref + "GG"
                 rows.append((v.pos + 1, [c, v.pos + 1, v.ref, alt2, "GT", [rng.choice(["0/1", "1|0", "1/1"]) for _ in samples],
                                           ".", ".", ".", "."]))
+        # a record the writer must skip, at the SAME position directly BEFORE a real variant
+        for v in sc.variants[c]:
+            if rng.random() < 0.1:
+                other = [b for b in "ACGT" if b != v.ref[0]]
+                kind = rng.choice(["multi", "multi_phased", "sym", "noalt"])
+                if kind == "multi":
+                    rows.append((v.pos + 0.5, [c, v.pos + 1, v.ref, other[0] + "," + other[1], "GT", [rng.choice(["1/2", "0/1"]) for _ in samples], ".", ".", ".", "."]))
+                elif kind == "multi_phased":
+                    rows.append((v.pos + 0.5, [c, v.pos + 1, v.ref, other[0] + "," + other[1], "GT:PS", [rng.choice(["1|2:7", "2|1:7"]) for _ in samples], ".", ".", ".", "."]))
+                elif kind == "sym":
+                    rows.append((v.pos + 0.5, [c, v.pos + 1, v.ref[0], "<DEL>", "GT", ["0/0" for _ in samples], ".", ".", ".", "."]))
+                else:
+                    rows.append((v.pos + 0.5, [c, v.pos + 1, v.ref[0], ".", "GT", ["0/0" for _ in samples], ".", ".", ".", "."]))
         # extra records between / around the variants
         L = len(sc.ref[c])
         taken = {v.pos for v in sc.variants[c]}
@@ -515,23 +530,42 @@ def gen_cli_input(rng):
     ped = rng.random() < 0.25
     nsamples = 3 if ped else rng.choice([1, 2, 3])
     sc = synth.make_scenario(rng, nchrom=nchrom, nsamples=nsamples, nvars=rng.randint(3, 8),
-                             kinds=("snv", "snv", "snv", "ins", "del", "mnp"), het_fraction=0.8)
+                             kinds=("snv", "snv", "snv", "ins", "del", "mnp"), het_fraction=0.8,
+                             sample_names=vcfgen.draw_names(rng, vcfgen.SAMPLE_NAMES, nsamples),
+                             chrom_names=vcfgen.draw_names(rng, vcfgen.CHROM_NAMES, nchrom))
     trios = []
     if ped:
-        ch, fa, mo = sc.samples[2], sc.samples[0], sc.samples[1]
+        roles = list(sc.samples)
+        rng.shuffle(roles)                      # which column is the child does not follow the names or the order
+        ch, fa, mo = roles
         for c in sc.chroms:
             sc.haps[ch][c], _ = synth.inherit(rng, sc.haps[fa][c], sc.haps[mo][c], recomb_prob=0.0)
         trios = [(ch, fa, mo)]
+    no_reads_for = rng.choice(sc.samples) if nsamples > 1 and not ped and rng.random() < 0.15 else None
     reads = []
     for s in sc.samples:
+        if s == no_reads_for:
+            continue
         for c in sc.chroms:
             reads += synth.simulate_reads(rng, sc, s, c, n_reads=rng.randint(4, 14), len_range=(80, 260))
     opts = {"tag": rng.choice(["PS", "HP"]), "only_snvs": rng.random() < 0.25, "distrust": rng.random() < 0.25,
             "samples": None, "chromosomes": None, "ped": trios}
     if not ped and nsamples > 1 and rng.random() < 0.6:
-        opts["samples"] = sorted(rng.sample(sc.samples, rng.randint(1, nsamples - 1)))
+        opts["samples"] = rng.sample(sc.samples, rng.randint(1, nsamples))        # any order, possibly all
     if nchrom > 1 and rng.random() < 0.5:
-        opts["chromosomes"] = sorted(rng.sample(sc.chroms, rng.randint(1, nchrom - 1)))
+        opts["chromosomes"] = rng.sample(sc.chroms, rng.randint(1, nchrom))
+    opts["algorithm"] = rng.choice(["whatshap"] * 4 + ["heuristic"] + ([] if ped else ["hapchat"]))
+    opts["include_homozygous"] = opts["distrust"] and rng.random() < 0.4
+    opts["no_reference"] = rng.random() < 0.15
+    opts["merge_reads"] = rng.random() < 0.1
+    opts["max_coverage"] = rng.choice([None, None, None, 5, 2])
+    opts["ignore_read_groups"] = nsamples == 1 and rng.random() < 0.3
+    opts["no_genetic_haplotyping"] = ped and rng.random() < 0.3
+    opts["use_ped_samples"] = ped and rng.random() < 0.3
+    opts["stdout"] = rng.random() < 0.2
+    opts["gz_input"] = rng.random() < 0.15
+    opts["two_bams"] = len(reads) > 4 and rng.random() < 0.2
+    opts["no_reads_for"] = no_reads_for
     vt = decorate_scenario(rng, sc, opts)
     return sc, reads, vt, opts
 
@@ -541,13 +575,37 @@ def run_cli_case(ctx, wd, idx, sc, reads, vt, opts):
     os.makedirs(d, exist_ok=True)
     in_path, out_path, trace = os.path.join(d, "in.vcf"), os.path.join(d, "out.vcf"), os.path.join(d, "trace.jsonl")
     vt.write(in_path)
+    in_arg = "in.vcf"
+    if opts.get("gz_input"):
+        import pysam
+        pysam.tabix_compress(in_path, in_path + ".gz", force=True)
+        in_arg = "in.vcf.gz"
     synth.write_fasta(sc, os.path.join(d, "ref.fa"))
-    synth.write_bam(sc, reads, os.path.join(d, "reads.bam"))
-    args = ["phase", "--reference", "ref.fa", "-o", "out.vcf", "--tag", opts["tag"]]
+    bams = ["reads.bam"]
+    if opts.get("two_bams"):
+        synth.write_bam(sc, reads[0::2], os.path.join(d, "reads.bam"))
+        synth.write_bam(sc, reads[1::2], os.path.join(d, "reads2.bam"))
+        bams.append("reads2.bam")
+    else:
+        synth.write_bam(sc, reads, os.path.join(d, "reads.bam"))
+    args = ["phase", "--tag", opts["tag"]]
+    args += ["--no-reference"] if opts.get("no_reference") else ["--reference", "ref.fa"]
+    if not opts.get("stdout"):
+        args += ["-o", "out.vcf"]
     if opts["only_snvs"]:
         args.append("--only-snvs")
     if opts["distrust"]:
         args.append("--distrust-genotypes")
+    if opts.get("include_homozygous"):
+        args.append("--include-homozygous")
+    if opts.get("algorithm", "whatshap") != "whatshap":
+        args += ["--algorithm", opts["algorithm"]]
+    if opts.get("merge_reads"):
+        args.append("--merge-reads")
+    if opts.get("max_coverage"):
+        args += ["--max-coverage", str(opts["max_coverage"])]
+    if opts.get("ignore_read_groups"):
+        args.append("--ignore-read-groups")
     for s in opts["samples"] or []:
         args += ["--sample", s]
     for c in opts["chromosomes"] or []:
@@ -555,8 +613,15 @@ def run_cli_case(ctx, wd, idx, sc, reads, vt, opts):
     if opts["ped"]:
         synth.write_ped(os.path.join(d, "fam.ped"), opts["ped"])
         args += ["--ped", "fam.ped"]
-    args += ["in.vcf", "reads.bam"]
+        if opts.get("no_genetic_haplotyping"):
+            args.append("--no-genetic-haplotyping")
+        if opts.get("use_ped_samples"):
+            args.append("--use-ped-samples")
+    args += [in_arg] + bams
     rc, so, se = util.run_cli(ctx, args, cwd=d, env_extra={"WHATSHAP_VERIF_TRACE": trace})
+    if opts.get("stdout") and rc == 0:
+        with open(out_path, "w") as f:
+            f.write(so)
     return d, in_path, out_path, trace, args, rc, se
 
 
@@ -592,7 +657,10 @@ def make_cli_case(ctx, wd, idx, sc, reads, vt, opts):
     if rc != 0:
         return {"malformed": se[-400:], "replay": replay, "desc": desc}
     fin = vcfabs.parse_vcf(in_path)
-    fout = vcfabs.parse_vcf(out_path)
+    try:
+        fout = vcfabs.parse_vcf(out_path)
+    except Exception as e:
+        return {"malformed": f"the written VCF cannot be parsed ({type(e).__name__}: {e})", "replay": replay, "desc": desc}
     if fout.nul_bytes:
         ctx.tally("cases.output_with_nul_bytes")
     if fout.nul_bytes and ctx.dist.get("cases.output_with_nul_bytes", 0) <= 2:
@@ -628,9 +696,17 @@ def run_cli(ctx, n):
             ctx.tally("cli.chromosome_selection")
         if opts["ped"]:
             ctx.tally("cli.ped")
+        for k in ("algorithm",):
+            ctx.tally(f"cli.{k}.{opts.get(k)}")
+        for k in ("include_homozygous", "no_reference", "merge_reads", "max_coverage", "ignore_read_groups",
+                  "no_genetic_haplotyping", "use_ped_samples", "stdout", "gz_input", "two_bams", "no_reads_for"):
+            if opts.get(k):
+                ctx.tally("cli." + k)
+        tally_shapes(ctx, "cli", vt)
         if "malformed" in c:
-            ctx.tally("cli.rejected")
-            ctx.l2_disagreement("whatshap phase failed on a well-formed input", [c["desc"] + " :: " + c["malformed"]])
+            ctx.tally("cli.failed")
+            ctx.violation("phase:crash", "whatshap phase failed on a well-formed input: " + c["desc"] + " :: " + c["malformed"][-300:],
+                          c["replay"])
             ctx.count(("cli-rej", vt.text()), nontrivial=False)
             continue
         ctx.count(("cli", vt.text(), json.dumps(opts, sort_keys=True)),
